@@ -110,6 +110,7 @@ func (l *InMemLoader) normalize(templatePath string) string {
 // Open returns a template's contents, or an error if no template was added under this path using Set().
 func (l *InMemLoader) Open(templatePath string) (io.ReadCloser, error) {
 	templatePath = l.normalize(templatePath)
+	verifYield("InMemLoader:Open")
 	l.lock.RLock()
 	defer l.lock.RUnlock()
 	f, ok := l.files[templatePath]
@@ -123,6 +124,7 @@ func (l *InMemLoader) Open(templatePath string) (io.ReadCloser, error) {
 // Exists returns whether or not a template is indexed under this path.
 func (l *InMemLoader) Exists(templatePath string) bool {
 	templatePath = l.normalize(templatePath)
+	verifYield("InMemLoader:Exists")
 	l.lock.RLock()
 	defer l.lock.RUnlock()
 	_, ok := l.files[templatePath]
@@ -132,6 +134,7 @@ func (l *InMemLoader) Exists(templatePath string) bool {
 // Set adds a template to the loader.
 func (l *InMemLoader) Set(templatePath, contents string) {
 	templatePath = l.normalize(templatePath)
+	verifYield("InMemLoader:Set")
 	l.lock.Lock()
 	defer l.lock.Unlock()
 	l.files[templatePath] = []byte(contents)
@@ -140,6 +143,7 @@ func (l *InMemLoader) Set(templatePath, contents string) {
 // Delete removes whatever contents are stored under the given path.
 func (l *InMemLoader) Delete(templatePath string) {
 	templatePath = l.normalize(templatePath)
+	verifYield("InMemLoader:Delete")
 	l.lock.Lock()
 	defer l.lock.Unlock()
 	delete(l.files, templatePath)
